@@ -51,6 +51,16 @@ def scripts(rnd, quick):
             for ws16 in (0, 1):
                 for n in (0x10000, 0x7FFFFFFF, 0x80000000, 0x80000001, 0x80000005, 0x8000FFFF, 0xFFFFFFFF):
                     sc.append(rx(tr, mem16, cap, wire(tr, request(tr, 0, ws16, rnd.choice(seqs), rnd.choice(addrs), n)), verdict=0, data=[7] * 16))
+            # ... also when they are malformed in a way that would be answered if they were requests: payload that does not match the
+            # block size, payload that does not match its checksum
+            for ftype in (T_RRESP, T_WRESP, T_META):
+                for bs, pl in ((3, [1, 2, 3, 4]), (0, [9]), (2, [7] * (2 if not mem16 else 3))):
+                    meta = 1 if ftype == T_META else 0
+                    o = frame(ftype, opts_for(tr, False, True), meta, 5, 9, bs, pl)
+                    sc.append(rx(tr, mem16, cap, wire(tr, o)))
+                if tr == 0:
+                    o = frame(ftype, opts_for(tr, False, True), 1 if ftype == T_META else 0, 6, 9, 4, [1, 2, 3, 4], plcrc=0x1234)
+                    sc.append(rx(tr, mem16, cap, wire(tr, o)))
             # non-requests: responses and meta messages must cause neither access nor reply
             for ftype, meta in ((T_RRESP, 0), (T_WRESP, 0), (T_RRESP, 7), (T_WRESP, 11), (T_META, 1), (T_META, 2)):
                 pl = [1, 2, 3, 4] if meta == 7 else []
